@@ -758,7 +758,8 @@ def set_pos(ev, st, info, r, src, pos):
 
 
 @ax('<std::iter::Peekable<I> as std::iter::Iterator>::next', "<std::str::SplitN<'a, P> as std::iter::Iterator>::next",
-    "<std::str::Split<'a, P> as std::iter::Iterator>::next",
+    "<std::str::Split<'a, P> as std::iter::Iterator>::next", '<std::str::SplitN<P> as std::iter::Iterator>::next',
+    '<std::str::Split<P> as std::iter::Iterator>::next',
     note='next() yields the next token and advances; None when exhausted (iterators over a finite string are finite)')
 def a_split_next(ev, st, info, args):
     src, pos = split_state(ev, st, args[0])
